@@ -180,7 +180,7 @@ pub fn run(ctx: &mut Ctx, prop: &str) {
     // containers whose string forms share prefixes around the "," separator (and, for == / ===, that
     // are structurally identical): all arrays of length 1..2 over a 10-element alphabet, pairwise
     {
-        let el: Vec<Value> = ["1", "10", r#""1""#, r#""a""#, r#""a b""#, r#""a,b""#, "[1,2]", "[1]", "null", r#""""#].iter().map(|t| al::parse(t)).collect();
+        let el: Vec<Value> = ["1", "10", r#""1""#, r#""a""#, r#""a b""#, r#""a,b""#, "[1,2]", "[1]", "null", r#""""#, "[]", "[[]]", "[null]"].iter().map(|t| al::parse(t)).collect();
         let mut arrs: Vec<Value> = Vec::new();
         for x in &el {
             arrs.push(json!([x]));
@@ -200,6 +200,21 @@ pub fn run(ctx: &mut Ctx, prop: &str) {
             }
         }
         arrs.extend([json!("1,5"), json!("1,2,0"), json!("a,b"), json!("a b,c"), json!(",")]);
+        // every array of the family against its own string form, and against that form plus / minus a comma
+        let forms: Vec<Value> = arrs.iter().filter(|a| a.is_array()).map(|a| json!(crate::refmodel::str_form(a))).collect();
+        let forms = al::dedup(forms);
+        for a in arrs.clone().iter().filter(|a| a.is_array()) {
+            if !ctx.mine() {
+                continue;
+            }
+            for f in &forms {
+                ctx.edge();
+                for k in ops {
+                    ctx.check(&format!("{}:array-family:own-form", k), &op(k, vec![a.clone(), f.clone()]), &null);
+                    ctx.check(&format!("{}:array-family:own-form:swapped", k), &op(k, vec![f.clone(), a.clone()]), &null);
+                }
+            }
+        }
         for a in &arrs {
             if !ctx.mine() {
                 continue;
@@ -289,6 +304,32 @@ pub fn run(ctx: &mut Ctx, prop: &str) {
                                 ctx.law_fail("law:between=conjunction", &r, &null, format!("{}", x && y), format!("{}", z));
                             }
                         }
+                    }
+                }
+            }
+        }
+        // between over the magnitude ladder: windows of three neighbours (integers that are one double, doubles
+        // that are neighbours), preceded / followed by small operands
+        {
+            let mut lad = al::magnitude_ladder();
+            lad.sort_by(|x, y| x.as_f64().unwrap().partial_cmp(&y.as_f64().unwrap()).unwrap());
+            for w in lad.windows(3) {
+                if !ctx.mine() {
+                    continue;
+                }
+                for t in [[w[0].clone(), w[1].clone(), w[2].clone()], [w[2].clone(), w[1].clone(), w[0].clone()], [json!(0), w[0].clone(), w[1].clone()], [w[1].clone(), w[0].clone(), json!(0)], [w[0].clone(), w[1].clone(), w[1].clone()], [w[1].clone(), w[0].clone(), w[0].clone()], [json!(null), w[1].clone(), w[0].clone()]] {
+                    ctx.edge();
+                    for k in ops {
+                        let r = op(k, t.to_vec());
+                        let o = ctx.check(&format!("{}:between:ladder", k), &r, &null);
+                        let o1 = ctx.exec(&op(k, vec![t[0].clone(), t[1].clone()]), &null);
+                        let o2 = ctx.exec(&op(k, vec![t[1].clone(), t[2].clone()]), &null);
+                        if let (Some(x), Some(y), Some(z)) = (bool_of(&o1), bool_of(&o2), bool_of(&o)) {
+                            if z != (x && y) {
+                                ctx.law_fail("law:between=conjunction", &r, &null, format!("{}", x && y), format!("{}", z));
+                            }
+                        }
+                        ctx.check(&format!("{}:between:ladder:V", k), &op(k, vec![json!({"var": 0}), json!({"var": 1}), json!({"var": 2})]), &Value::Array(t.to_vec()));
                     }
                 }
             }
